@@ -378,6 +378,10 @@ func TestC19(t *testing.T) {
 		{[4]string{"<<", ">>", "<%", "%>"}, "a  <<-1>>  b  << -1 >>  c  <<- -1 ->>  d", "a  {{-1}}  b  {{ -1 }}  c  {{- -1 -}}  d"},
 		{[4]string{"<<", ">>", "<?", "?>"}, "<? capture ok? ?>x<? endcapture ?>[<< ok? >>]<? assign v_? = 2 ?>[<< v_? >>]", "{% capture ok? %}x{% endcapture %}[{{ ok? }}]{% assign v_? = 2 %}[{{ v_? }}]"},
 		{[4]string{"((", "))", "{%", "_}"}, "{% capture v_ _}c{% endcapture _}[(( v_ ))]", "{% capture v_ %}c{% endcapture %}[{{ v_ }}]"},
+		// arguments that end in the first character of the closing tag delimiter, with no blank before the closer
+		{[4]string{"<<", ">>", "<(", ")>"}, "<( for i in (1..3))><< i >><( endfor )>|<(if (x == 1))>y<(endif)>", "{% for i in (1..3)%}{{ i }}{% endfor %}|{%if (x == 1)%}y{%endif%}"},
+		{[4]string{"<<", ">>", "<[", "]>"}, "<[ assign v = a[0]]>[<< v >>]<[ assign w = a[1]-]>  [<< w >>]", "{% assign v = a[0]%}[{{ v }}]{% assign w = a[1]-%}  [{{ w }}]"},
+		{[4]string{"<<", ">>", "<(", ")>"}, "a <( for i in (1..3)-)>  << i >> <( endfor -)>  b", "a {% for i in (1..3)-%}  {{ i }} {% endfor -%}  b"},
 		{[4]string{"[[", "]]", "[%", "%]"}, "t  [[a[0] ]]  [ u ]  [%if a[1] == 2%]  v[%endif%]", "t  {{a[0] }}  [ u ]  {%if a[1] == 2%}  v{%endif%}"},
 	} {
 		if env.Mine(i) {
